@@ -484,6 +484,21 @@ func (w *World) extActions() (begin, end []ExtAction) {
 		if a != w.Anchor.AddrHex() && v.Vals[a].Status != 0 && !w.Reserved[a] {
 			ad, _ := hex.DecodeString(a)
 			sev := []string{"0.0", "0.000000000000000001", "0.01", "0.1", "0.5", "1.0", "0.333333333333333333"}[w.R.Intn(7)]
+			if w.R.Chance(50) {
+				// a severity that leaves exactly the minimum stake, if one of the usual ones does
+				tok := v.Vals[a].Tokens
+				pw := new(big.Int).Quo(tok, big.NewInt(1000000))
+				for _, c := range []struct {
+					s string
+					f int64
+				}{{"0.5", 500000}, {"0.1", 100000}, {"0.01", 10000}, {"0.05", 50000}} {
+					left := new(big.Int).Sub(tok, new(big.Int).Mul(pw, big.NewInt(c.f)))
+					if left.Cmp(big.NewInt(ParamsOf(v).Min)) == 0 {
+						sev = c.s
+						break
+					}
+				}
+			}
 			end = append(end, ExtAction{Kind: "burn", Phase: "end", Addr: ad, Severity: sev})
 			if w.R.Chance(25) {
 				end = append(end, ExtAction{Kind: "burn", Phase: "end", Addr: ad, Severity: "0.02"})
